@@ -161,3 +161,293 @@ M('em-sample-lognormal-mean', ['C06'], EM,
 M('em-sample-mult', ['C06'], EM,
   "samples = model_output + model_output * rel_samples",
   "samples = model_output + rel_samples", 'R06.1')
+
+# =============================================================================
+# interface / wrappers (C02, C08, C17)
+# =============================================================================
+M('if-abstract', ['C02'], PM,
+  "    def compute_individual_parameters(\n            self, parameters, eta, return_eta=False, *args, **kwargs):\n        \"\"\"\n        Returns the individual parameters.\n\n        The truncated",
+  "    def compute_individual_parameters_disabled(\n            self, parameters, eta, return_eta=False, *args, **kwargs):\n        \"\"\"\n        Returns the individual parameters.\n\n        The truncated",
+  'R02.1')
+M('if-kwarg', ['C02', 'C03', 'C08'], PM,
+  "            reduce=False, *args, **kwargs):\n        \"\"\"\n        Returns the log-likelihood of the population model parameters and\n        its sensitivity to the population parameters as well as the\n        observations.\n\n        The sensitivities of the bottom-level log-likelihoods with respect to\n        the ``observations`` (bottom-level parameters) may be provided using\n        ``dlogp_dpsi``, in order to compute the sensitivities of the full\n        hierarchical log-likelihood.\n\n        The log-likelihood and sensitivities are returned as a tuple\n        ``(score, deta, dtheta)``.\n\n        :param parameters: Parameters of the population model.\n        :type parameters: np.ndarray of shape ``(n_parameters,)``\n",
+  "            reduce=False):\n        \"\"\"\n        Returns the log-likelihood of the population model parameters and\n        its sensitivity to the population parameters as well as the\n        observations.\n\n        The sensitivities of the bottom-level log-likelihoods with respect to\n        the ``observations`` (bottom-level parameters) may be provided using\n        ``dlogp_dpsi``, in order to compute the sensitivities of the full\n        hierarchical log-likelihood.\n\n        The log-likelihood and sensitivities are returned as a tuple\n        ``(score, deta, dtheta)``.\n\n        :param parameters: Parameters of the population model.\n        :type parameters: np.ndarray of shape ``(n_parameters,)``\n",
+  'R02.7')
+M('if-isinstance', ['C02', 'C18'], LP,
+  "            if pop_model.n_hierarchical_dim() == 0:\n                current_dim += n_dim\n                continue\n            end_dim = current_dim + n_dim\n            dims += list(range(current_dim, end_dim))\n            current_dim = end_dim\n        for idx, bottom_params in enumerate(bottom_parameters):\n            bottom_parameters[idx] = bottom_params[:, dims].flatten()\n\n        initial_params[:, :n_bottom]",
+  "            if isinstance(pop_model, chi.PooledModel):\n                current_dim += n_dim\n                continue\n            end_dim = current_dim + n_dim\n            dims += list(range(current_dim, end_dim))\n            current_dim = end_dim\n        for idx, bottom_params in enumerate(bottom_parameters):\n            bottom_parameters[idx] = bottom_params[:, dims].flatten()\n\n        initial_params[:, :n_bottom]",
+  'R02.6')
+M('wr-forward', ['C02', 'C08', 'C17'], PM,
+  "        super(CovariatePopulationModel, self).set_n_ids(n_ids)\n        self._population_model.set_n_ids(n_ids)\n",
+  "        super(CovariatePopulationModel, self).set_n_ids(n_ids)\n",
+  'R02.2')
+M('wr-stale', ['C02', 'C17'], PM,
+  "        self._n_pop = self._population_model.n_parameters()\n        self._special_dims, self._n_pooled_dims, self._n_hetero_dims = \\\n            self._population_model.get_special_dims()\n\n    def set_parameter_names",
+  "\n    def set_parameter_names", 'R02.2')
+M('role-psi-to-pop', ['C02', 'C13'], LP,
+  "        s, dscore = self._population_model.compute_sensitivities(\n            top_parameters, bottom_parameters, covariates=self._covariates,",
+  "        s, dscore = self._population_model.compute_sensitivities(\n            top_parameters, psi, covariates=self._covariates,",
+  'R02.3')
+M('role-eta-to-ll', ['C02'], LP,
+  "            l, dl_dpsi = log_likelihood.evaluateS1(psi[idi])",
+  "            l, dl_dpsi = log_likelihood.evaluateS1(bottom_parameters[idi])",
+  'R02.3')
+M('hier-cut', ['C02'], LP,
+  "        bottom_parameters = parameters[:self._n_bottom]\n        top_parameters = parameters[self._n_bottom:]\n\n        # Broadcast pooled parameters and reshape bottom parameters to\n        # (n_ids, n_dim)\n        bottom_parameters = \\\n            self._population_model.compute_individual_parameters(\n                parameters=top_parameters,\n                eta=bottom_parameters,\n                covariates=self._covariates,\n                return_eta=True\n            )\n\n        # Compute population model score",
+  "        bottom_parameters = parameters[:self._n_bottom]\n        top_parameters = parameters[self._n_bottom - 1:]\n\n        # Broadcast pooled parameters and reshape bottom parameters to\n        # (n_ids, n_dim)\n        bottom_parameters = \\\n            self._population_model.compute_individual_parameters(\n                parameters=top_parameters,\n                eta=bottom_parameters,\n                covariates=self._covariates,\n                return_eta=True\n            )\n\n        # Compute population model score",
+  'R02.4')
+M('hier-names-tile', ['C02', 'C17'], LP,
+  "        names = names * self._n_ids\n        names += self._population_model.get_parameter_names()",
+  "        names = [name for name in names for _ in range(self._n_ids)]\n        names += self._population_model.get_parameter_names()",
+  'R02.4')
+
+# =============================================================================
+# cursors (C01, C05, C13, C15, C18)
+# =============================================================================
+M('cur-ll-advance', ['C01', 'C03'], LP,
+  "                observations=self._observations[output_id]))\n\n            # Shift start indices\n            start = end",
+  "                observations=self._observations[output_id]))", 'R05.4')
+M('cur-composed-param', ['C05', 'C02'], PM,
+  "            current_dim = end_dim\n            current_param = end_param\n\n        return score\n",
+  "            current_dim = end_dim\n\n        return score\n", 'R05.4')
+M('cur-filter-time', ['C12', 'C13'], PF,
+  "                simulated_obs[:, :, current_time_id:end_time_id])\n            current_time_id = end_time_id\n\n        return score",
+  "                simulated_obs[:, :, current_time_id:end_time_id])\n\n        return score",
+  'R05.4')
+M('cur-shift', ['C13'], LP, "            shift += end_dim - start_dim",
+  "            shift = end_dim - start_dim", 'R05.4')
+
+# =============================================================================
+# RNG (C16, C15, C06)
+# =============================================================================
+M('rng-global', ['C16'], PR, "        model_draws = seed.choice(",
+  "        model_draws = np.random.choice(", 'R16.1')
+M('rng-fanout', ['C16', 'C06'], PM,
+  "                    n_samples=n_samples,\n                    seed=rng,\n                    covariates=cov)",
+  "                    n_samples=n_samples,\n                    seed=seed,\n                    covariates=cov)",
+  'R16.2')
+M('rng-gen-reseed', ['C16'], PM,
+  "            seed = seed.integers(low=0, high=1E6)\n        np.random.seed(seed)",
+  "            pass\n        np.random.seed(seed)", 'R16.3')
+M('rng-stored', ['C16'], EM,
+  "        rng = np.random.default_rng(seed=seed)\n        samples = rng.normal(loc=0, scale=sigma, size=sample_shape)",
+  "        self._rng = np.random.default_rng(seed=seed)\n        rng = self._rng\n        samples = rng.normal(loc=0, scale=sigma, size=sample_shape)",
+  'R16.4')
+M('rng-unseeded-callee', ['C16', 'C15'], PR,
+  "        patients = self._population_model.sample(\n            parameters=parameters, n_samples=n_samples, seed=seed,\n            covariates=covariates)",
+  "        patients = self._population_model.sample(\n            parameters=parameters, n_samples=n_samples,\n            covariates=covariates)",
+  'R16.5')
+M('rng-eps-broadcast', ['C16'], LP,
+  "            size=(\n                n_samples,\n                self._n_samples * self._n_times * self._n_observables\n            )",
+  "            size=(\n                self._n_samples * self._n_times * self._n_observables\n            )",
+  'R16.6')
+
+# =============================================================================
+# mechanistic typestate / copies (C10, C11, C19)
+# =============================================================================
+M('mech-noattach', ['C11', 'C10', 'C19'], MM,
+  "        self._simulator = myokit.Simulation(model)\n        self._simulator.set_protocol(self._dosing_regimen)\n",
+  "        self._simulator = myokit.Simulation(model)\n", 'R11.1')
+M('mech-regimen-stale', ['C11', 'C10'], MM,
+  "        self._simulator.set_protocol(dosing_regimen)\n        self._dosing_regimen = dosing_regimen",
+  "        self._dosing_regimen = dosing_regimen", 'R11.1')
+M('mech-norefresh', ['C11'], MM,
+  "        self._model = model\n        original_outputs = self._output_names\n        self._set_number_and_names()",
+  "        self._model = model\n        original_outputs = self._output_names",
+  'R11.2')
+M('mech-flag', ['C11', 'C19'], MM,
+  "        model._simulator = myokit.Simulation(myokit_model)\n        model._has_sensitivities = False",
+  "        model._simulator = myokit.Simulation(myokit_model)", 'R11.5')
+M('mech-shallow', ['C11', 'C19'], MM,
+  "        # Copy the mechanistic model\n        model = copy.deepcopy(self)\n\n        # Replace myokit model by safe copy and create simulator",
+  "        # Copy the mechanistic model\n        model = copy.copy(self)\n\n        # Replace myokit model by safe copy and create simulator",
+  'R11.3')
+M('mech-vanilla', ['C11', 'C19'], MM,
+  "        self._vanilla_model = self._model.clone()",
+  "        self._vanilla_model = self._model", 'R11.6')
+M('copy-nocopy', ['C19', 'C14', 'C08'], LP,
+  "        # Copy mechanistic model\n        mechanistic_model = mechanistic_model.copy()\n\n        # Set outputs\n        if outputs is not None:\n            mechanistic_model.set_outputs(outputs)\n\n        n_outputs = mechanistic_model.n_outputs()\n        if len(error_model)",
+  "        # Set outputs\n        if outputs is not None:\n            mechanistic_model.set_outputs(outputs)\n\n        n_outputs = mechanistic_model.n_outputs()\n        if len(error_model)",
+  'R19.3')
+M('sw-evalS1', ['C03', 'C01', 'C19'], LP,
+  "        if not self._mechanistic_model.has_sensitivities():\n            self._mechanistic_model.enable_sensitivities(True)\n\n        # Solve the mechanistic model\n        try:\n            outputs, senss",
+  "        # Solve the mechanistic model\n        try:\n            outputs, senss",
+  'R03.5')
+M('pure-write', ['C19'], EM,
+  "        parameters = np.asarray(parameters)\n        model = np.asarray(model_output)\n        obs = np.asarray(observations)\n        n_observations = len(observations)",
+  "        parameters = np.asarray(parameters)\n        parameters[parameters < 0] = 0\n        model = np.asarray(model_output)\n        obs = np.asarray(observations)\n        n_observations = len(observations)",
+  'R19.2')
+M('pure-field', ['C19'], LP,
+  "        # Compute log-likelihood score\n        score = 0\n        start = 0\n        for output_id, error_model in enumerate(self._error_models):\n            # Get relevant mechanistic model outputs and parameters\n            output = outputs[output_id, self._obs_masks[output_id]]\n            end = start + self._n_error_params[output_id]\n\n            # Compute log-likelihood score for this output\n            score +=",
+  "        # Compute log-likelihood score\n        score = 0\n        start = 0\n        self._last_outputs = outputs\n        for output_id, error_model in enumerate(self._error_models):\n            # Get relevant mechanistic model outputs and parameters\n            output = outputs[output_id, self._obs_masks[output_id]]\n            end = start + self._n_error_params[output_id]\n\n            # Compute log-likelihood score for this output\n            score +=",
+  'R19.1')
+
+# =============================================================================
+# reduced wrappers (C08)
+# =============================================================================
+M('red-noscatter', ['C08', 'C06'], EM,
+  "        if self._fixed_params_mask is not None:\n            self._fixed_params_values[~self._fixed_params_mask] = parameters\n            parameters = self._fixed_params_values\n\n        # Sample from error model",
+  "        # Sample from error model", 'R08.1')
+M('red-filter', ['C08'], PM,
+  "            return score, dpsi, dtheta[~self._fixed_params_mask]",
+  "            return score, dpsi, dtheta[self._fixed_params_mask]", 'R08.2')
+M('red-release', ['C08'], EM,
+  "            self._fixed_params_mask[index] = value is not None",
+  "            self._fixed_params_mask[index] = True", 'R08.3')
+M('red-names', ['C08', 'C17'], MM,
+  "            names = names[~self._fixed_params_mask]\n            names = list(names)\n\n        return copy.copy(names)\n\n    def set_dosing_regimen",
+  "            names = names[self._fixed_params_mask]\n            names = list(names)\n\n        return copy.copy(names)\n\n    def set_dosing_regimen",
+  'R08.4')
+M('red-refresh', ['C08', 'C17', 'C01'], LP,
+  "        self._mechanistic_model = mechanistic_model\n        self._error_models = error_models\n\n        # Update names and number of parameters\n        self._set_number_and_parameter_names()\n\n    def get_id(self, *args, **kwargs):",
+  "        self._mechanistic_model = mechanistic_model\n        self._error_models = error_models\n\n    def get_id(self, *args, **kwargs):",
+  'R08.5')
+M('red-sens', ['C08', 'C03', 'C09', 'C11', 'C17'], MM,
+  "        # Remove sensitivities for fixed parameters\n        if self.has_sensitivities() is True:\n            self.enable_sensitivities(True)",
+  "        # Remove sensitivities for fixed parameters\n        if self.has_sensitivities() is True and \\\n                self._fixed_params_mask is not None:\n            self.enable_sensitivities(True)",
+  'R08.7')
+
+
+# =============================================================================
+# layout / covariates (C07, C02, C03, C17, C13)
+# =============================================================================
+M('lay-cov-reshape', ['C07', 'C02', 'C03'], CM,
+  "            parameters = parameters.reshape(self._n_selected, self._n_cov)\n        parameters = parameters.T\n\n        # Compute population parameters",
+  "            parameters = parameters.reshape(self._n_cov, self._n_selected).T\n        parameters = parameters.T\n\n        # Compute population parameters",
+  'R07.1')
+M('lay-cov-names', ['C07', 'C17'], CM,
+  "            for id_p in range(self._n_selected):\n                names += ['Param. %d' % (id_p + 1)] * self._n_cov",
+  "            for id_c in range(self._n_cov):\n                names += ['Param. %d' % (id_p + 1) for id_p in range(self._n_selected)]",
+  'R07.1')
+M('lay-cov-raw', ['C07'], PM,
+  "        pidx, didx = self._covariate_model.get_set_population_parameters()\n        names = names.reshape(n_pop, self._n_dim)[pidx, didx]",
+  "        names = names.reshape(n_pop, self._n_dim)[indices[:, 0], indices[:, 1]]",
+  'R07.3')
+M('lay-cov-member', ['C07'], CM,
+  "            idx = [int(idx[0]), int(idx[1])]\n            if idx not in unique:\n                unique.append(idx)",
+  "            if idx not in unique:\n                unique.append([int(idx[0]), int(idx[1])])",
+  'R07.4')
+M('lay-dtheta', ['C05', 'C17', 'C03'], PM,
+  "        dtheta = np.empty(shape=(n_ids, 2, n_dim))\n        dtheta[:, 0] = dmus\n        dtheta[:, 1] = dstd\n\n        return dpsi, dtheta\n\n    def compute_individual_parameters(",
+  "        dtheta = np.empty(shape=(n_ids, 3, n_dim))\n        dtheta[:, 0] = dmus\n        dtheta[:, 1] = dstd\n\n        return dpsi, dtheta\n\n    def compute_individual_parameters(",
+  'R05.3')
+M('lay-names-gauss', ['C05', 'C17'], PM,
+  "        self._parameter_names = ['Mean'] * self._n_dim + ['Std.'] * self._n_dim\n\n        self._centered",
+  "        self._parameter_names = ['Mean', 'Std.'] * self._n_dim\n\n        self._centered",
+  'R05.3')
+M('lay-eps-reshape', ['C13', 'C17'], LP,
+  "        epsilon = parameters[self._end_bottom:].reshape(\n            self._n_samples, self._n_observables, self._n_times)\n\n        # Compute log-prior contribution to score",
+  "        epsilon = parameters[self._end_bottom:].reshape(\n            self._n_samples, self._n_times, self._n_observables)\n\n        # Compute log-prior contribution to score",
+  'R13.1')
+M('lay-pooled-top', ['C13'], LP,
+  "            n_pop = self._population_model.n_parameters()\n            sensitivities[:n_pop] += np.sum(dbottom, axis=0)",
+  "            sensitivities[:self._n_top] += np.sum(dbottom, axis=0)",
+  'R13.1')
+M('noise-sigma', ['C13', 'C03'], LP,
+  "                sensitivities[n_pop:self._n_top] += np.sum(\n                    ds_y * epsilon * y, axis=(0, 2))",
+  "                sensitivities[n_pop:self._n_top] += np.sum(\n                    ds_y * epsilon, axis=(0, 2))",
+  'R13.3')
+M('noise-eps-log', ['C13', 'C03'], LP,
+  "            sensitivities[self._end_bottom:] += (ds_y * y * sigma).flatten()",
+  "            sensitivities[self._end_bottom:] += (ds_y * sigma).flatten()",
+  'R13.3')
+
+# =============================================================================
+# filters (C12)
+# =============================================================================
+M('flt-jacobian', ['C12'], PF,
+  "np.log(2*np.pi) + np.log(var) + 2 * self._observations",
+  "np.log(2*np.pi) + np.log(var) + self._observations", 'R12.1')
+M('flt-ddof', ['C12'], PF,
+  "        mu = np.mean(simulated_obs, axis=0, keepdims=True)\n        var = np.var(simulated_obs, ddof=1, axis=0, keepdims=True)\n\n        score = self._compute_log_likelihood(mu, var)\n        if np.ma.is_masked(score):\n            return -np.inf\n\n        return score",
+  "        mu = np.mean(simulated_obs, axis=0, keepdims=True)\n        var = np.var(simulated_obs, ddof=0, axis=0, keepdims=True)\n\n        score = self._compute_log_likelihood(mu, var)\n        if np.ma.is_masked(score):\n            return -np.inf\n\n        return score",
+  'R12.2')
+M('flt-bandwidth', ['C12'], PF,
+  "        bw_squared = (4 / 3 / n_sim) ** 0.4 * np.var(\n            simulated_obs, ddof=1, axis=0, keepdims=True)\n\n        score = np.sum(logsumexp(\n            - (simulated_obs - self._observations)**2\n            / bw_squared / 2, axis=0\n            ) - np.log(n_sim) - np.log(2 * np.pi) / 2 - np.log(bw_squared) / 2)\n        if np.ma.is_masked(score):",
+  "        bw_squared = (4 / 3 / n_sim) ** 0.2 * np.var(\n            simulated_obs, ddof=1, axis=0, keepdims=True)\n\n        score = np.sum(logsumexp(\n            - (simulated_obs - self._observations)**2\n            / bw_squared / 2, axis=0\n            ) - np.log(n_sim) - np.log(2 * np.pi) / 2 - np.log(bw_squared) / 2)\n        if np.ma.is_masked(score):",
+  'R12.1')
+M('flt-grad', ['C12', 'C03'], PF,
+  "                axis=0) * (simulated_obs - mu) / (n_sim - 1)",
+  "                axis=0) * (simulated_obs - mu) / n_sim", 'R12.3')
+M('flt-perm', ['C12', 'C13'], PF,
+  "            simulated_obs = simulated_obs[:, :, self._time_filter_order]\n\n        # Compute score\n        score = 0\n        sensitivities",
+  "            simulated_obs = simulated_obs[:, :, self._time_order]\n\n        # Compute score\n        score = 0\n        sensitivities",
+  'R12.4')
+M('flt-cache', ['C12'], PF,
+  "    def __init__(self, observations):\n        super().__init__(observations)\n\n    def _compute_log_likelihood(self, mu, var):",
+  "    def __init__(self, observations):\n        super().__init__(observations)\n        self._n_valid = np.ma.count(self._observations, axis=0)\n\n    def _compute_log_likelihood(self, mu, var):",
+  'R12.5')
+
+# =============================================================================
+# SBML / dosing (C09, C10)
+# =============================================================================
+M('sb-order', ['C09'], MM,
+  "        self._parameter_names = self._state_names + self._const_names",
+  "        self._parameter_names = self._const_names + self._state_names",
+  'R09.1')
+M('sb-perm', ['C09'], MM,
+  "        self._original_order = np.argsort(order_after_sort)",
+  "        self._original_order = order_after_sort", 'R09.2')
+M('sb-maps', ['C09'], MM,
+  "                self._parameter_name_map[myokit_name] = str(new_name)\n            except KeyError:",
+  "                self._parameter_name_map = dict(self._parameter_name_map)\n                self._parameter_name_map[myokit_name] = str(new_name)\n            except KeyError:",
+  'R09.4')
+M('ds-rate', ['C10'], MM, "        dose_rate = dose / duration\n",
+  "        dose_rate = dose\n", 'R10.1')
+M('ds-depot', ['C10'], MM,
+  "                myokit.PrefixMinus(myokit.Name(absorption_rate)),\n                myokit.Name(dose_drug_amount)",
+  "                myokit.Name(absorption_rate),\n                myokit.Name(dose_drug_amount)",
+  'R10.2')
+M('ds-amount', ['C10'], PR,
+  "            dose_amount = dose_rate * dose_duration",
+  "            dose_amount = dose_rate", 'R10.5')
+
+# =============================================================================
+# controller / predictive / inference / plots (C14, C15, C18, C20)
+# =============================================================================
+M('pb-pairing', ['C14'], PB,
+  "            mask = temp_df[self._time_key].notnull()\n            temp_df = temp_df[mask]\n",
+  "", 'R14.1')
+M('pb-cov-id', ['C14'], PB,
+  "                mask = temp[self._id_key] == _id\n                covariates[idn, idc] = \\\n                    temp.loc[mask, self._value_key].dropna().values",
+  "                mask = temp[self._id_key] == self._ids[idc]\n                covariates[idn, idc] = \\\n                    temp.loc[mask, self._value_key].dropna().values",
+  'R14.2')
+M('pb-dose-time', ['C14', 'C10'], PB,
+  "                time = row[self._time_key]\n", "                time = row[duration_key]\n",
+  'R14.3')
+M('pb-regimen-order', ['C14', 'C10'], PB,
+  "            if self._dosing_regimens:\n                self._mechanistic_model.set_dosing_regimen(\n                    self._dosing_regimens[individual])\n\n            log_likelihood = self._create_log_likelihood(individual)",
+  "            log_likelihood = self._create_log_likelihood(individual)\n            if self._dosing_regimens:\n                self._mechanistic_model.set_dosing_regimen(\n                    self._dosing_regimens[individual])\n",
+  'R14.4')
+M('pr-times', ['C15'], PR,
+  "        times = np.sort(times)\n        for patient_id, patient in enumerate(patients):\n            measurements[..., patient_id] = self._predictive_model.sample(\n                parameters=patient, times=times, seed=seed, return_df=False",
+  "        sorted_times = np.sort(times)\n        for patient_id, patient in enumerate(patients):\n            measurements[..., patient_id] = self._predictive_model.sample(\n                parameters=patient, times=sorted_times, seed=seed, return_df=False",
+  'R15.3')
+M('pr-labels', ['C15'], PR,
+  "            times[np.newaxis, :, np.newaxis],\n            shape=(n_outputs, n_times, n_samples)).flatten()",
+  "            times[np.newaxis, np.newaxis, :],\n            shape=(n_outputs, n_samples, n_times)).flatten()",
+  'R15.4')
+M('inf-init-row', ['C18'], LP,
+  "                parameters=initial_params[sample_id, n_bottom:],\n                n_samples=n_ids, seed=rng, covariates=covariates))",
+  "                parameters=initial_params[0, n_bottom:],\n                n_samples=n_ids, seed=rng, covariates=covariates))",
+  'R18.1')
+M('inf-ids-sorted', ['C18'], INF,
+  "        ids = np.array(ids) if isinstance(ids, list) else ids",
+  "        ids = np.array(sorted(ids)) if isinstance(ids, list) else ids",
+  'R18.2')
+M('inf-map', ['C18'], PR,
+  "        model_names = self._predictive_model.get_parameter_names()\n        for param_id, name in enumerate(model_names):\n            try:\n                model_names[param_id] = param_map[name]\n            except KeyError:\n                # The name is not mapped\n                pass",
+  "        model_names = self._predictive_model.get_parameter_names()\n        for name, mapped in param_map.items():\n            if name in model_names:\n                model_names[model_names.index(name)] = mapped",
+  'R18.3')
+M('pl-rows', ['C20'], TS,
+  "            mask = data[id_key] == _id\n            times = data[time_key][mask]\n            measurements = data[value_key][mask]\n            color = colors[index % n_colors]\n\n            # Create Scatter plot\n            self._add_data_trace(_id, times, measurements, color)\n\n    def add_simulation",
+  "            mask = data[id_key] == _id\n            times = data[time_key]\n            measurements = data[value_key][mask]\n            color = colors[index % n_colors]\n\n            # Create Scatter plot\n            self._add_data_trace(_id, times, measurements, color)\n\n    def add_simulation",
+  'R20.1')
+M('pl-write', ['C20', 'C19'], TS,
+  "        # Get dose information\n        mask = data[dose_key].notnull()",
+  "        # Get dose information\n        data[dose_duration_key] = data[dose_duration_key].fillna(0.01)\n        mask = data[dose_key].notnull()",
+  'R20.2')
+M('pl-band', ['C20'], TS,
+  "            values = np.hstack([upper, lower[::-1]])\n\n            # Add trace\n            self._fig.add_trace(go.Scatter(\n                x=times,\n                y=values,\n                line=dict(width=1, color=colors[trace_id]),\n                fill='toself',\n                legendgroup='Model prediction',",
+  "            values = np.hstack([upper, lower])\n\n            # Add trace\n            self._fig.add_trace(go.Scatter(\n                x=times,\n                y=values,\n                line=dict(width=1, color=colors[trace_id]),\n                fill='toself',\n                legendgroup='Model prediction',",
+  'R20.3')
